@@ -8,6 +8,7 @@ import Ogen.IntRoundTrip_proof
 import Ogen.RouterDriver
 import Ogen.SecurityHandler_proof
 import Ogen.ValidateModel_proof
+import Ogen.OptNilStates_proof
 
 /-! Line-protocol driver over all executable models: `<model> <payload>` per line, one
     canonical output line per input line. Core-only (no Mathlib) so it links natively. -/
@@ -45,6 +46,7 @@ def dispatch (line : String) : String :=
     | "vlen" => ValidateM.vlenLine payload
     | "vprops" => ValidateM.vpropsLine payload
     | "vuniq" => ValidateM.vuniqLine payload
+    | "optnil" => OptNil.optnilLine payload
     | "jeq" => JEqDrv.runLine payload
     | "enum" => JEqDrv.enumLine payload
     | _ => "bad-model"
